@@ -387,7 +387,19 @@ func runC08(c *an.Ctx) {
 				return
 			}
 			seenB[b] = true
-			if len(b.Instrs) <= 2 && len(b.Preds) > 1 && d < 3 { // latch: i++ ; jump
+			isLatch := len(b.Preds) > 1 && d < 3
+			for _, x := range b.Instrs {
+				switch y := x.(type) {
+				case *ssa.Jump, *ssa.DebugRef, *ssa.Phi:
+				case *ssa.BinOp:
+					if y.Op != token.ADD && y.Op != token.SUB {
+						isLatch = false
+					}
+				default:
+					isLatch = false
+				}
+			}
+			if isLatch { // latch: i++ ; jump
 				for _, p := range b.Preds {
 					addPred(p, d+1)
 				}
